@@ -22,7 +22,7 @@ GInit == Init /\ hist = <<>>
 
 GNext ==
     /\ Len(hist) < WalkLen
-    /\ \/ \E k \in Keys : Keygen(k) /\ Log([a |-> "keygen", k |-> k])
+    /\ \/ \E k \in Keys : Keygen(k) /\ Log([a |-> "keygen", k |-> k, start |-> Fresh(k).ctr])
        \/ \E k \in Keys : Reload(k) /\ Log([a |-> "reload", k |-> k])
        \/ \E k \in Keys : Persist(k) /\ Log([a |-> "persist", k |-> k])
        \/ \E k \in Keys, api \in Apis : GetLifetime(k, api) /\ Log([a |-> "lifetime", k |-> k, api |-> api])
